@@ -94,7 +94,7 @@ def build(repo):
            extra_req=['parallel coordinate initialisation is rejected by solve (O8: expected dead):: not params("init.run_in_parallel")'],
            dead=['return#3'])
     method('Controller.initialise_random_directions', 'optexit', 'result',
-           extra_req=['batched (parallel) initialisation is outside the ledger contract (D6/D23):: not params("init.run_in_parallel")'],
+           extra_req=[('batched (parallel) initialisation is outside the ledger contract (D6/D23):: not params("init.run_in_parallel")', 'C03', 'C04')],
            dead=['return#1'])
     method('Controller.move_furthest_points', 'optexit', 'result')
     method('Controller.move_furthest_points_momentum', 'optexit', 'result')
